@@ -147,8 +147,9 @@ Proof. exact Conc.ConcUVScratch.uv_worker_scratch_overwritten. Qed.
 Print Assumptions C12_uv_worker_scratch_overwritten.
 
 (** animation.DecodeFramesParallel (work queue + collection of results in arrival order,
-    ConcQueue.v; [dec] = the frame decoder, arbitrary): the decoded frames do not depend on
-    the arrival order of the results, hence not on the worker count or the schedule ... *)
+    ConcQueue.v; [dec] = the frame decoder, arbitrary; [collect] = the current loop, which
+    keeps the error of the lowest frame index, fix 8f1f7ab): the decoded frames are the
+    decodable frames, whatever the arrival order ... *)
 From Webp Require Conc.ConcQueue.
 Module Q := Conc.ConcQueue.
 Theorem C12_queue_frames_independent :
@@ -158,45 +159,33 @@ Theorem C12_queue_frames_independent :
 Proof. exact Q.queue_frames_independent. Qed.
 Print Assumptions C12_queue_frames_independent.
 
-(** ... the returned error is nil iff no frame fails, and otherwise the error of some failing frame ... *)
-Theorem C12_queue_error_nil_iff :
-  forall (A E : Type) (dec : Z -> A + E) total arrival fr, Permutation arrival (zrange total) ->
-  (snd (Q.collect A E dec arrival fr) = None <-> forall i, 0 <= i < total -> ~ Q.fails A E dec i).
-Proof. exact Q.queue_error_nil_iff. Qed.
-Print Assumptions C12_queue_error_nil_iff.
-
-Theorem C12_queue_error_is_some_frames :
-  forall (A E : Type) (dec : Z -> A + E) arrival fr e,
-  snd (Q.collect A E dec arrival fr) = Some e -> exists i, In i arrival /\ dec i = inr e.
-Proof. exact Q.queue_error_is_some_frames. Qed.
-Print Assumptions C12_queue_error_is_some_frames.
-
-(** ... and it is independent of the arrival order when all failing frames report the same error. *)
-Theorem C12_queue_error_independent_if_unique :
-  forall (A E : Type) (dec : Z -> A + E) total arr1 arr2 fr1 fr2 e0,
-  Permutation arr1 (zrange total) -> Permutation arr2 (zrange total) ->
-  (forall i e, 0 <= i < total -> dec i = inr e -> e = e0) ->
-  snd (Q.collect A E dec arr1 fr1) = snd (Q.collect A E dec arr2 fr2).
-Proof. exact Q.queue_error_independent_if_unique. Qed.
-Print Assumptions C12_queue_error_independent_if_unique.
-
-(** REFUTED for the pinned collecting loop: with two frames failing with different errors
-    the returned error depends on the arrival order (finding, reproduced on the code). *)
-Theorem C12_queue_first_error_order_independent_refuted : ~ Q.queue_first_error_order_independent.
-Proof. exact Q.queue_first_error_order_independent_refuted. Qed.
-Print Assumptions C12_queue_first_error_order_independent_refuted.
-
-(** The repaired rule (work/patches/c12-anim-parallel-first-error.diff): the error of the
-    lowest failing frame index, for every arrival order. *)
+(** ... the returned error is nil iff no frame fails and otherwise the error of the lowest
+    failing frame index ... *)
 Theorem C12_queue_min_index_error_independent :
   forall (A E : Type) (dec : Z -> A + E) total arrival fr,
   Permutation arrival (zrange total) ->
-  match snd (Q.collect_min A E dec arrival fr) with
+  match snd (Q.collect A E dec arrival fr) with
   | None => forall i, 0 <= i < total -> ~ Q.fails A E dec i
   | Some (j, e) => Q.is_min_fail A E dec total j e
   end.
 Proof. exact Q.queue_min_index_error_independent. Qed.
 Print Assumptions C12_queue_min_index_error_independent.
+
+(** ... so frames AND error are the same for any two arrival orders, i.e. for every worker
+    count and schedule. *)
+Theorem C12_queue_result_order_independent :
+  forall (A E : Type) (dec : Z -> A + E) total arr1 arr2,
+  Permutation arr1 (zrange total) -> Permutation arr2 (zrange total) ->
+  Q.collect A E dec arr1 (repeat None (Z.to_nat total)) = Q.collect A E dec arr2 (repeat None (Z.to_nat total)).
+Proof. exact Q.queue_result_order_independent. Qed.
+Print Assumptions C12_queue_result_order_independent.
+
+(** About the PINNED loop ([pinned_collect]: first error to arrive) only: its returned
+    error depended on the arrival order (the defect fixed by 8f1f7ab). *)
+Theorem C12_pinned_queue_first_error_order_independent_refuted :
+  ~ Q.pinned_queue_first_error_order_independent.
+Proof. exact Q.pinned_queue_first_error_order_independent_refuted. Qed.
+Print Assumptions C12_pinned_queue_first_error_order_independent_refuted.
 
 (** Tie to the source (regenerated on every run): every read of the CPU count and
     every [go] statement of the library is one of the modelled sites, and every such
